@@ -182,15 +182,18 @@ def kill_key(facts, k):
     return frozenset(f for f in facts if k not in f[0] and not (f[1] == "=:" and k in str(f[2])))
 
 
-def transfer(facts, stmt, kill_calls=True, heap_kill=True):
-    """Effect of executing a top-level statement on the fact set."""
+def transfer(facts, stmt, kill_calls=True, heap_kill=True, stable=()):
+    """Effect of executing a top-level statement on the fact set.
+    `stable`: call keys whose facts survive re-evaluation (scenario analyses)."""
     from .ir import ap
     f = facts
     # 1. re-evaluated calls lose their old facts
     if kill_calls:
         for n in walk(stmt):
             if n["k"] == "call":
-                f = kill_key(f, key(n))
+                kk = key(n)
+                if kk not in stable:
+                    f = kill_key(f, kk)
     # 2. assignments (anywhere in the statement), inner first
     nodes = [n for n in walk(stmt)]
     for n in reversed(nodes):
@@ -254,6 +257,11 @@ def lookup(facts, k):
     return None
 
 
+# pure library functions whose result is a function of constant arguments
+# (filled in by rules from the analysed source, e.g. the errno -> PErrorIO switch)
+PURE_FUNCS = {}
+
+
 def eval_const(e, facts):
     """Evaluate expression to an int under the facts, or None."""
     e = strip_casts(e)
@@ -267,6 +275,11 @@ def eval_const(e, facts):
     v = lookup(facts, kk)
     if v is not None:
         return v
+    if k == "call" and e.get("callee") in PURE_FUNCS:
+        args = [eval_const(a, facts) for a in e["args"]]
+        if all(a is not None for a in args):
+            return PURE_FUNCS[e["callee"]](args)
+        return None
     if k == "un" and e["op"] == "!":
         x = eval_const(e["e"], facts)
         if x is not None:
@@ -314,6 +327,18 @@ def eval_const(e, facts):
             if (lv is not None and lv != 0) or (rv is not None and rv != 0):
                 return 1
             if lv == 0 and rv == 0:
+                return 0
+            return None
+        if op in ("&", "|", "^", "+", "-", "*", "<<", ">>"):
+            lv = eval_const(e["l"], facts)
+            rv = eval_const(e["r"], facts)
+            if lv is not None and rv is not None:
+                try:
+                    return {"&": lv & rv, "|": lv | rv, "^": lv ^ rv, "+": lv + rv, "-": lv - rv, "*": lv * rv,
+                            "<<": lv << rv if 0 <= rv < 64 else None, ">>": lv >> rv if 0 <= rv < 64 else None}[op]
+                except Exception:
+                    return None
+            if op == "&" and (lv == 0 or rv == 0):
                 return 0
             return None
         return None
